@@ -23,8 +23,8 @@ CHECKS = {
  "C11": dict(
    category="exploration",
    technique="deterministic simulation of try_replacen over a fault-injected search layer, refined against an executable replace model",
-   text="try_replacen / replace / replacen / replace_all run with every replacer kind and limits 0..3 over the real iterators, with limit faults injected into chosen searches; the result is compared with an executable model (gaps verbatim, first n matches replaced, tail verbatim) built from the fault-free match sequence; Borrowed-iff-no-match, replacer-kind equivalence (also under a limit fault), fast/slow path agreement, one replacer object reused for two calls through by_ref(), at most 2(chars+3)+6 searches per call, and Err-not-panic-never-partial under every fired fault are checked.",
-   note="Trusts find_iter / captures_iter sequences (C08) and single searches; template parsing beyond well-formed $$, ${N}, ${name} tokens is C12's.",
+   text="try_replacen / replace / replacen / replace_all run with every replacer kind and limits 0..3 over the real iterators, with limit faults injected into chosen searches; the result is compared with an executable model (gaps verbatim, first n matches replaced, tail verbatim) built from the fault-free match sequence; Borrowed-iff-no-match, replacer-kind equivalence (also under a limit fault), fast/slow path agreement, one replacer object reused for two calls through by_ref(), one template used with a regex, then with a sibling regex whose groups are numbered differently, then with the first again (call sequences on one thread), at most 2(chars+3)+6 searches per call, and Err-not-panic-never-partial under every fired fault are checked.",
+   note="Trusts find_iter / captures_iter sequences (C08) and single searches; template parsing beyond well-formed $$, ${N}, ${name} tokens is C12's. A call that returns Ok without ever making the search that errors in the fault-free reference iteration is counted, not judged (the statement does not ask that every search be made).",
    design="4.3"),
  "C18": dict(
    category="exploration",
@@ -35,7 +35,7 @@ CHECKS = {
  "C20": dict(
    category="exploration",
    technique="deterministic simulation of rollback/commit histories against a whole-state-copy reference model, at the hooked State API and shadowing real VM runs, with capacity and limit faults",
-   text="Seeded legal operation histories (create/abandon alternative, write slot, aux push/pop, enter/commit atomic, raw cut, capacity faults) are executed against the VM's private State through the hook wrapper and against a model that keeps complete copies; slots, auxiliary stack, depth and return values are compared after every operation (3 slots and 3 values as the statement's own bound, plus large-commit, wrap-window and wide histories: up to 200 slots with writes next to the 64 / 128 boundaries, up to 300 operations). The same model shadows real vm::run executions through the observer hook, adding bracket discipline (every EndAtomic commits, against its own BeginAtomic's marker and depth), negative-look-around unwinding to its own alternative, result-slot equality, and the one caller-visible consequence that needs no reference matcher (a group inside a negative look-around is unset in every result), also under injected limit aborts.",
+   text="Seeded legal operation histories (create/abandon alternative, write slot, aux push/pop, enter/commit atomic, raw cut, capacity faults) are executed against the VM's private State through the hook wrapper and against a model that keeps complete copies; slots, auxiliary stack, depth and return values are compared after every operation (3 slots and 3 values as the statement's own bound, plus large-commit, wrap-window and wide histories: up to 200 slots with writes next to the 64 / 128 boundaries, up to 300 operations). The same model shadows real vm::run executions through the observer hook, adding bracket discipline (every EndAtomic commits, against its own BeginAtomic's marker and depth), negative-look-around unwinding to its own alternative, result-slot equality, the one caller-visible consequence that needs no reference matcher (a group inside a negative look-around is unset in every result), and commit brackets: in copies of the generated patterns, atomic groups / possessive quantifiers / negative look-arounds stand between empty marker groups, and when the marker after the construct executes exactly the alternatives alive at the marker before it may be alive, whatever instructions the construct was compiled to; also under injected limit aborts.",
    note="Trusts the read-only view of State (slots, live aux stack, depth). A generated run that consumes a conditional's leaked atomic marker (listed known finding, recognised by its call-site signature) is counted and not checked past that point.",
    design="4.5"),
 }
